@@ -12,3 +12,4 @@ import MicroHttp.Props.Tables
 #print axioms MicroHttp.C01.sched_refines
 #print axioms MicroHttp.C01.history_input_is_reads_only
 #print axioms MicroHttp.Tables.no_shared_state
+#print axioms MicroHttp.Tables.no_interior_mutability
